@@ -35,6 +35,7 @@ EXPLANATION = (
     "(snapshot taken before the instance is requested), on every exit. R4: host_is_name_part / address_is_local are "
     "evaluated by the checker on a table of addresses. Resolver outcomes for all inputs as behaviour are not decided."
     ' Added: every failure of mDNS start-up, service-info construction and request surfaces as ResolveAPIError; a half-written instance/flag pair is rejected at exceptional exits too; constant regular expressions in the address classifiers are evaluated over an extended address table.'
+    ' Also: one pass over the configured addresses; an instance is requested only where it is closed again.'
 )
 ASSUMPTIONS = ["ipaddress.ip_address raises ValueError for non-literals and performs no lookup", "zeroconf's AsyncZeroconf.async_close is the only way an instance is closed", "M1-M5 of DESIGN.md section 2"]
 
